@@ -19,12 +19,15 @@ func SetScalar(value string) SetFn {
 // It can be used with an empty name to set both a value and a tag on a scalar node.
 // When setting only a value on a scalar node, use SetScalar instead.
 func SetEntry(name, value, tag string) SetFn {
-	n := &yaml.Node{
-		Kind:  yaml.ScalarNode,
-		Value: value,
-		Tag:   tag,
-	}
 	return func(node *yaml.RNode) error {
+		// a fresh node per call: the returned SetFn is applied at many
+		// locations, and a node shared between them would make a later
+		// write to one location change all of them
+		n := &yaml.Node{
+			Kind:  yaml.ScalarNode,
+			Value: value,
+			Tag:   tag,
+		}
 		return node.PipeE(yaml.FieldSetter{
 			Name:  name,
 			Value: yaml.NewRNode(n),
